@@ -79,8 +79,16 @@ func c08CheckBatch(run *vlib.Run, cases []schemaCase) (map[int][]vlib.Violation,
 			for fi := range faults {
 				f := faults[fi]
 				// harness cross-check: the reference validator must reject the fault
+				if f.Class == "defaulted_removed" {
+					if err := p.validators[i].Validate(d.Def, f.JSON); err != nil {
+						// JSON Schema / OpenAPI: the document is invalid for the schema
+						// although cog fills the default in: its leniency there is not judged
+						count(run, "defaulted_property_left_out_rejected_by_schema", 1)
+						continue
+					}
+				}
 				if err := p.validators[i].Validate(d.Def, f.JSON); err == nil {
-					if f.Class == "required_removed" {
+					if f.Class == "required_removed" || f.Class == "defaulted_removed" {
 						// the schema language fills the property in (a CUE field
 						// with a default): the document without it is VALID for
 						// the source schema, and must not be rejected
@@ -126,7 +134,7 @@ func c08CheckBatch(run *vlib.Run, cases []schemaCase) (map[int][]vlib.Violation,
 					run.Eval(vlib.HashBytes([]byte(c.source()), []byte(rf.doc.JSON), []byte("defaulted")), "valid_without_defaulted_property")
 				}
 				if r.HasStrict && r.StrictErr != "" {
-					bad("strict-false-positive:"+f+":defaulted-property-left-out:"+errClass(r.StrictErr)+nestedTag(c), "the strict decoder rejects %s, which the source schema accepts (the property left out has a default): %s", rf.doc.JSON, r.StrictErr)
+					bad("strict-false-positive:"+f+":"+errClass(r.StrictErr)+"-defaulted-property-left-out"+nestedTag(c), "the strict decoder rejects %s, which the source schema accepts (the property left out has a default): %s", rf.doc.JSON, r.StrictErr)
 				}
 				if r.StdErr != "" {
 					bad("std-false-positive:"+f+":defaulted-property-left-out"+nestedTag(c), "the standard decoder rejects %s, which the source schema accepts: %s", rf.doc.JSON, r.StdErr)
